@@ -9,7 +9,8 @@ from harness.progs import instantiate
 from harness.tlc import run_tlc, tla, TLCResult
 
 CLAUSES = ['T_InvBcast', 'T_GradBcast', 'T_NoInvMemOpt', 'T_NoGradCommOpt',
-           'T_FactorsWorld', 'T_NothingW1', 'T_OncePerUpdate', 'HoldersOK']
+           'T_FactorsWorld', 'T_NothingW1', 'T_OncePerUpdate', 'T_Match',
+           'T_Members', 'HoldersOK']
 
 
 def hist_facts(h: list[dict[str, Any]]) -> list[dict[str, Any]]:
